@@ -17,6 +17,8 @@ re-extracts, on every check, every line of the non-test source of the anchored f
     `mem::forget`, `ManuallyDrop`, `mem::replace|swap|take`, `set_hook`/`take_hook`;
   * leaves safe Rust: `unsafe`, `transmute`, raw-pointer constructors and accessors;
   * reaches the environment: `std::env`, `std::process`, `thread::spawn|sleep|park`, clocks;
+  * can panic: `assert!`/`debug_assert!`/`panic!`/`unreachable!`/`.unwrap()`/`.expect(` (recorded up to
+    renaming of local identifiers, like the integer sites);
   * is conditionally compiled (`#[cfg(...)]` other than test / the verification guard);
   * opens an `impl` block or a `#[derive(...)]` list, or declares a method INSIDE a trait impl
     (`impl Clone for X { fn clone_from … }`, `impl Iterator for X { fn nth … }`),
@@ -49,6 +51,9 @@ SITE = re.compile(
     r"|\bunsafe\b|\btransmute\b|\bfrom_raw(?:_parts(?:_mut)?)?\b|\binto_raw\b|\bas_ptr\(|\bas_mut_ptr\(|\bptr::|\bNonNull\b"
     r"|\bstd::env\b|\benv::var|\bstd::process\b|\bthread::(?:spawn|sleep|park|yield_now)\b|\bInstant::now\b|\bSystemTime::now\b|\bnow_utc\b"
 )
+# panic sites: the panic-aware models (Model/HcobsP, StreamP, the `Option`-valued iovec model, ...) have one
+# `panic` outcome per assertion / unwrap of the code; a new or changed one is a new way to fail
+PANIC = re.compile(r"\b(?:debug_)?assert(?:_eq|_ne)?!|\bpanic!|\bunreachable!|\bunimplemented!|\btodo!|\.unwrap\(\)|\.expect\(|\bunwrap_unchecked\b")
 CFG = re.compile(r"#\[cfg\((?!test\b|all\(test|woodpile_verif|not\(woodpile_verif)")
 IMPL = re.compile(r"^\s*(?:unsafe\s+)?impl\b")
 DERIVE = re.compile(r"#\[derive\(")
@@ -79,6 +84,8 @@ def sites_of(src):
             out.append("trait-fn: %s :: fn %s" % (impl_stack[-1][0], m.group(1)))
         if SITE.search(line) and not IMPL.search(line):
             out.append("site: " + norm(line))
+        if PANIC.search(line):
+            out.append("panic-site: " + ih.normalise(line))
         for ch in line:
             if ch == "{":
                 if pending_impl is not None:
